@@ -16,6 +16,12 @@
 (*                      covered, their languages are written out below     *)
 (*   list               the element validators apply to every member       *)
 (* A null for an optional argument carries no value: no predicate applies. *)
+(* A position with a default (`default`, `default = ..`, `default_with`)   *)
+(* may be omitted (value kind "omitted"): its value is then the default,   *)
+(* `dflt` of the annotation (read back from the compiled schema).  An      *)
+(* explicit value is judged exactly as without a default.  Whether a       *)
+(* default that violates its own validators must be refused is not stated  *)
+(* by the property; such an omission is accepted either way.               *)
 (*                                                                         *)
 (* Numbers are exact decimals [neg, d, scale] = +-d * 10^-scale (BigNat    *)
 (* digits); `lit` says whether the literal is an IntValue or a FloatValue. *)
@@ -24,9 +30,10 @@
 (* about them (assumption: IEEE arithmetic on such values is exact).       *)
 (*                                                                         *)
 (* Values: [k, lit, neg, d, scale, cp, items], k \in {"num","str","list",  *)
-(* "null"}; list members are records without `items`.                      *)
+(* "null","omitted"}; list members are records without `items`.            *)
 (* An annotation (from the harness's family table): [name, site, T, cont,  *)
-(* list, vals], vals a sequence of [kind, b, n, re].                       *)
+(* list, vals, dflt], vals a sequence of [kind, b, n, re], dflt a value    *)
+(* (k = "none": the position has no default).                              *)
 (***************************************************************************)
 EXTENDS BigNat, FiniteSets
 
@@ -73,8 +80,12 @@ ElemInDomain(T, x) ==
   CASE T \in IntT   -> x.k = "num" /\ x.lit = "int" /\ x.scale = 0 /\ ~IsNegZero(x) /\ Between(TMin(T), BigOfDec(x), TMax(T))
     [] T \in FloatT -> x.k = "num"
     [] OTHER        -> x.k = "str"
-InDomain(f, v) ==
-  IF v.k = "null" THEN f.cont \in {"opt", "optlist"}
+\* the value the position has: the default when omitted
+Eff(f, v) == IF v.k = "omitted" THEN f.dflt ELSE v
+InDomain(f, v0) ==
+  LET v == Eff(f, v0) IN
+  IF v0.k = "omitted" /\ f.dflt.k = "none" THEN FALSE
+  ELSE IF v.k = "null" THEN f.cont \in {"opt", "optlist"}
   ELSE IF f.cont \in {"list", "optlist"} THEN v.k = "list" /\ \A i \in 1..Len(v.items) : ElemInDomain(f.T, v.items[i])
   ELSE ElemInDomain(f.T, v)
 
@@ -177,9 +188,12 @@ Explaining(c) ==
       S == {D \in SUBSET T : D # {} /\ Matches(c, ReachesDev(D, c.ann, c.v))}
   IN IF S = {} THEN {} ELSE CHOOSE D \in S : \A E \in S : Cardinality(D) <= Cardinality(E)
 
-Verdict(c) ==
-  IF ~InDomain(c.ann, c.v) THEN <<"violation", {"case outside the property's antecedent"}>>
+\* judged on the value the position has (c0: the recorded case; c: the same with the default substituted)
+Verdict(c0) ==
+  LET c == [c0 EXCEPT !.v = Eff(c0.ann, c0.v)] IN
+  IF ~InDomain(c0.ann, c0.v) THEN <<"violation", {"case outside the property's antecedent"}>>
   ELSE IF Matches(c, Reaches(c.ann, c.v)) THEN <<"ok", {}>>
+  ELSE IF c0.v.k = "omitted" /\ ~Reaches(c.ann, c.v) /\ (Reached(c) \/ Refused(c)) THEN <<"ok", {}>>   \* a violating default: not stated
   ELSE IF TrigIntValidatorI64(c.ann, c.v, c.mode) /\ Refused(c) THEN <<"known", {"DevIntValidatorI64"}>>
   ELSE IF Explaining(c) # {} THEN <<"known", Explaining(c)>>
   ELSE <<"violation", {}>>
